@@ -85,7 +85,7 @@ func processChecks(r *rng.R, scratch, trimmerBin, thriftgoBin, repo string) []Pr
 		out = append(out, ProcResult{Kind: kind, Name: name, OK: ok, Detail: detail})
 	}
 	// ---------------- trimmer binary and content-map API
-	for i := 0; i < 40; i++ {
+	for i := 0; i < 30; i++ {
 		g := &gen{r: r.Fork()}
 		p := g.newProgram(g.r.Range(2, 5))
 		cfgs := configsFor(g.r, p, 3)
